@@ -15,8 +15,8 @@ import (
 	"hop.computer/hop/common"
 )
 
-// VerifFrame mirrors the unexported frame struct.
-type VerifFrame struct {
+// VerifWireFrame mirrors the unexported frame struct.
+type VerifWireFrame struct {
 	AckNo, FrameNo                 uint32
 	DataLength                     uint16
 	REQ, RESP, REL, ACK, FIN, RTR  bool
@@ -24,24 +24,24 @@ type VerifFrame struct {
 	Data                           []byte
 }
 
-func (v VerifFrame) in() *frame {
+func (v VerifWireFrame) in() *frame {
 	return &frame{ackNo: v.AckNo, frameNo: v.FrameNo, dataLength: v.DataLength, tubeID: v.TubeID, data: v.Data,
 		flags: frameFlags{REQ: v.REQ, RESP: v.RESP, REL: v.REL, ACK: v.ACK, FIN: v.FIN, RTR: v.RTR}}
 }
 
-func verifOut(f *frame) VerifFrame {
-	return VerifFrame{AckNo: f.ackNo, FrameNo: f.frameNo, DataLength: f.dataLength, TubeID: f.tubeID, Data: f.data,
+func verifOut(f *frame) VerifWireFrame {
+	return VerifWireFrame{AckNo: f.ackNo, FrameNo: f.frameNo, DataLength: f.dataLength, TubeID: f.tubeID, Data: f.data,
 		REQ: f.flags.REQ, RESP: f.flags.RESP, REL: f.flags.REL, ACK: f.flags.ACK, FIN: f.flags.FIN, RTR: f.flags.RTR}
 }
 
 // VerifFrameToBytes = (*frame).toBytes
-func VerifFrameToBytes(v VerifFrame) []byte { return v.in().toBytes() }
+func VerifFrameToBytes(v VerifWireFrame) []byte { return v.in().toBytes() }
 
 // VerifFromBytes = fromBytes
-func VerifFromBytes(b []byte) (VerifFrame, error) {
+func VerifFromBytes(b []byte) (VerifWireFrame, error) {
 	f, err := fromBytes(b)
 	if err != nil || f == nil {
-		return VerifFrame{}, err
+		return VerifWireFrame{}, err
 	}
 	return verifOut(f), nil
 }
@@ -79,7 +79,7 @@ func VerifReframe(b []byte) (VerifInitFrame, error) {
 	return VerifFromInitiateBytes(f.toBytes()), nil
 }
 
-func verifLog() *logrus.Entry {
+func verifWireLog() *logrus.Entry {
 	l := logrus.New()
 	l.SetLevel(logrus.PanicLevel)
 	return logrus.NewEntry(l)
@@ -95,7 +95,7 @@ func VerifUnreliableWrite(id byte, frameNo uint32, b []byte) (queued []byte, n i
 		closed:    make(chan struct{}),
 		send:      common.NewDeadlineChan[[]byte](4),
 		recv:      common.NewDeadlineChan[[]byte](4),
-		log:       verifLog(),
+		log:       verifWireLog(),
 	}
 	u.state.Store(initiated)
 	close(u.initiated)
@@ -113,7 +113,7 @@ func VerifUnreliableWrite(id byte, frameNo uint32, b []byte) (queued []byte, n i
 // the production (*Reliable).Read / receiver.read. Used to feed exact byte strings to decoders
 // whose parameter type is *tubes.Reliable. Writes are discarded.
 func VerifPreloadedReliable(b []byte) *Reliable {
-	log := verifLog()
+	log := verifWireLog()
 	r := &Reliable{
 		tubeState:  initiated,
 		initRecv:   make(chan struct{}),
@@ -137,7 +137,7 @@ func VerifPreloadedReliable(b []byte) *Reliable {
 // dataLens with consecutive frame numbers starting at uint32(ackNo), window size, duplicate-ack
 // counter), runs the production recvAck(ack) and reports the state afterwards.
 func VerifRecvAck(ackNo uint64, dataLens []uint16, window uint16, dup int, ack uint32) (newAck uint64, remaining int, missing uint32, err error) {
-	s := newSender(verifLog())
+	s := newSender(verifWireLog())
 	defer s.RetransmitTicker.Stop()
 	s.ackNo = ackNo
 	s.senderWindow.windowSize = window
